@@ -309,7 +309,10 @@ func c07Run(c c07Case) Verdict {
 type c07AbandonCase struct {
 	Conv     convSpec `json:"conv"`     // first message must be BDAT with >= 2 chunks, or DATA for the timeout action
 	Boundary int      `json:"boundary"` // index of the chunk boundary at which the client abandons
-	Action   string   `json:"action"`   // RSET QUIT EHLO EOF TIMEOUT DATA-TIMEOUT
+	// Action: RSET QUIT EHLO EOF TIMEOUT DATA-TIMEOUT, or OVERLIMIT: the next
+	// chunk is refused with 552 for exceeding MaxMessageBytes (which discards
+	// the transaction), then a small LAST chunk that would fit is sent
+	Action string `json:"action"`
 }
 
 func c07AbandonRun(c c07AbandonCase) Verdict {
@@ -331,6 +334,9 @@ func c07AbandonRun(c c07AbandonCase) Verdict {
 	if c.Action == "TIMEOUT" || c.Action == "DATA-TIMEOUT" {
 		cfg.ReadTimeoutMs = 30
 	}
+	if c.Action == "OVERLIMIT" {
+		cfg.MaxMessageBytes = int64(len(c.Conv.Msgs[0].Body)) + 2
+	}
 	script := harness.Script{LMTPSession: c.Conv.Mode == 2, DefaultData: &harness.DataPlan{Read: harness.ReadPlan{Limit: -1}, Honest: true}}
 	r := harness.NewRig(cfg, script)
 	w, _ := r.Dial()
@@ -345,6 +351,11 @@ func c07AbandonRun(c c07AbandonCase) Verdict {
 	case "EHLO":
 		stream = append(stream, (greetWord(lmtp) + " again\r\nNOOP\r\n")...)
 	case "EOF":
+	case "OVERLIMIT":
+		big := int(cfg.MaxMessageBytes) + 1
+		stream = append(stream, fmt.Sprintf("BDAT %d\r\n", big)...)
+		stream = append(stream, bytes.Repeat([]byte("o"), big)...)
+		stream = append(stream, "BDAT 2 LAST\r\nokNOOP\r\n"...)
 	case "TIMEOUT", "DATA-TIMEOUT":
 		closes = true
 	}
@@ -392,6 +403,12 @@ func c07AbandonRun(c c07AbandonCase) Verdict {
 			return failf("positive-final-incomplete", "abandoned DATA got a positive final reply: %v", codes(rs))
 		}
 	}
+	if c.Action == "OVERLIMIT" {
+		n := len(rs)
+		if n < 3 || rs[n-3].Code != 552 || rs[n-2].Class() != 5 || rs[n-1].Code != 250 {
+			return failf("overlimit-then-last", "over-limit chunk, fitting LAST chunk, NOOP answered %v: want 552, a refusal (the transaction is gone), 250", codes(rs))
+		}
+	}
 	if c.Conv.Msgs[0].Chunks != nil {
 		// replies: those of the prefix, then the action's own; none may be a
 		// positive *final* reply, i.e. the count of 250s for BDAT lines equals
@@ -416,7 +433,7 @@ func init() {
 
 func TestC07(t *testing.T) {
 	registerAll()
-	st.Rule = "cases = (conversation of 1-2 DATA/BDAT messages in SMTP/LMTP mode, cut offset, fault mode eof|abort): every cut offset of every generated conversation is run; plus abandoning actions (RSET, QUIT, new greeting, EOF, idle timeout) at chunk boundaries; non-trivial = the cut or action falls strictly inside a message (after its first octet, before completion); distinct = hash of (conversation, cut, fault)"
+	st.Rule = "cases = (conversation of 1-2 DATA/BDAT messages in SMTP/LMTP mode, cut offset, fault mode eof|abort): every cut offset of every generated conversation is run; plus abandoning actions (RSET, QUIT, new greeting, EOF, idle timeout, an over-limit chunk followed by a fitting LAST chunk) at chunk boundaries; non-trivial = the cut or action falls strictly inside a message (after its first octet, before completion); distinct = hash of (conversation, cut, fault)"
 	if !regress(t, "C07") {
 		return
 	}
@@ -444,7 +461,7 @@ func TestC07(t *testing.T) {
 		return
 	}
 	c07Abandon.rapidCheck(t, pickTier(400, 3000), func(rt *rapid.T) c07AbandonCase {
-		action := rapid.SampledFrom([]string{"RSET", "QUIT", "EHLO", "EOF", "EOF", "RSET", "TIMEOUT", "DATA-TIMEOUT"}).Draw(rt, "action")
+		action := rapid.SampledFrom([]string{"RSET", "QUIT", "EHLO", "EOF", "EOF", "RSET", "TIMEOUT", "DATA-TIMEOUT", "OVERLIMIT", "OVERLIMIT"}).Draw(rt, "action")
 		spec := convSpec{Mode: rapid.IntRange(0, 2).Draw(rt, "mode"), NRcpt: rapid.IntRange(1, 3).Draw(rt, "nrcpt")}
 		m := genConvMsg(rt, "m0", 5)
 		if action == "DATA-TIMEOUT" {
